@@ -20,6 +20,12 @@ def run(ctx):
         distance(ctx, cname)
         threshold(ctx, cname)
         blocks(ctx, cname)
+        cadence(ctx, cname)
+        logs(ctx, cname)
+        reset_table(ctx, cname)
+        set_reference_table(ctx, cname)
+        threshold_cells(ctx, cname)
+    lifecycle(ctx)
     hellinger(ctx)
     # the concrete classes select the documented divergence
     for cname, div, fn in (("HDDDM", "H", "_hellinger_distance"), ("CDBD", "KL", "_KL_divergence")):
@@ -33,6 +39,9 @@ def run(ctx):
             sel = T.subst(v, lambda a: const(div) if a == ("param", "divergence") else None)
             okd = sel == atom(("boundmethod", fn))
         ctx.ob("TAB", cname + ".__init__", "divergence %r selects %s" % (div, fn), okd, q.short(v, 120) if v is not None else "")
+        usr = const("<user function>")
+        selu = T.subst(v, lambda a: usr if a == ("param", "divergence") else None) if v is not None else None
+        ctx.ob("TAB", cname + ".__init__", "any other value of divergence is used as the distance function itself", selu == usr, q.short(selu, 80) if selu is not None else "")
         # default divergence of the public class
         import ast as _ast
         fi = ctx.prog.method(cname, "__init__")
@@ -218,6 +227,15 @@ def distance(ctx, cname):
                 break
         ok2 = len(lv) == 1 and T.same(v, atom(lv[0]) / dim)
         ctx.ob("FRM", site, "distance = (1/d) * sum of the feature distances [%s]" % cname, ok and ok2, q.short(v, 120), cd[0])
+    # the per-feature distances are collected in the same loop and are what the next update compares with
+    if dyn:
+        pf = tr.stores("_prev_feature_distances")
+        lst = (pf[0].value.single_atom() or ("", "", ""))[2][1:] if pf and (pf[0].value.single_atom() or ("",))[0] == "loopvar" else None
+        apx = [e for e in tr.of("localmut") if e.how == "method:append" and e.name == lst and e.func.qualname == site]
+        init = [e for e in tr.of("local") if e.name == lst and e.aug is None and e.func.qualname == site]
+        ok = lst is not None and len(apx) == 1 and apx[0].value == atom(("tuple", (dyn[0].result,))) and set(map(id, apx[0].pc)) == set(map(id, dyn[0].pc)) \
+            and len(init) == 1 and init[0].value == atom(("list", ()))
+        ctx.ob("FRM", site, "the list of per-feature distances holds one distance per feature, in feature order [%s]" % cname, ok, "", apx[0] if apx else None)
     # the epsilon of this batch is what is recorded in epsilon_values[total_batches]
     ce = [e for e in tr.mutations("epsilon_values") if e.how == "setitem" and e.func.qualname == site]
     ok = len(ce) == 1 and cd and T.same(ce[0].value, T.mk_abs(cd[0].value - A("_prev_distance")))
@@ -333,7 +351,21 @@ def blocks(ctx, cname):
             ok = len(elt.atoms()) == 2 and any(_root_attr(atom(x)[0] if False else atom(x)) is None for x in elt.atoms())
             its = c[3][0].single_atom()
             ok = its is not None and its[0] == "call" and its[1] == "zip" and _root_attr(its[2][1]) == "_prev_feature_distances"
+            if ok:
+                # element = (current distance of the feature) - (its previous distance), same position of both lists
+                ix = [x for x in T.atoms_of(elt, "idx")]
+                ok = len(set(ix)) == 1 and len(its[2]) == 2 and T.same(elt, q.sub(its[2][0], atom(ix[0])) - q.sub(its[2][1], atom(ix[0]))) and \
+                    (its[2][0].single_atom() or ("",))[0] == "loopvar"
     ctx.ob("FRM", site, "per-feature epsilon = distance - previous distance of the same feature [%s]" % cname, ok, "")
+
+
+def _zip_pos(a):
+    """position in the zip tuple a comprehension variable is bound to: ('sub', <iter elem>, k) -> k"""
+    if a[0] == "sub" and a[2].is_const():
+        return int(a[2].const_value())
+    if a[0] in ("iter", "idx", "elem") and len(a) > 3 and isinstance(a[-1], int):
+        return a[-1]
+    return None
 
 
 def _first_concat(v):
@@ -378,3 +410,195 @@ def hellinger(ctx):
     ctx.ob("FRM", site, "distance is the square root of the sum", ra is not None and ra[0] == "call" and ra[1] == "sqrt" and (ra[2][0].single_atom() or ("",))[0] == "loopvar", "")
     init = [e for e in tr.of("local") if e.name == acc and e.aug is None]
     ctx.ob("FRM", site, "sum starts at 0", len(init) == 1 and init[0].value == const(0), "")
+
+
+# ---------------------------------------------------------------------------
+# cadence table, logs, reset / set_reference tables, lifecycle
+
+def cadence(ctx, cname):
+    """Which steps of update() run, per (detect_batch, position k of the batch in its epoch), by constant folding."""
+    site = HDMQ + ".update"
+    n = 0
+    for db in (1, 2, 3):
+        for k in (1, 2, 3, 4, 7):
+            tr = ctx.trace(cname, "update", assume={"_drift_state": None, "detect_batch": db, "_batches_since_reset": k - 1}, nonnull=("X",))
+            lab = "detect_batch=%d, batch %d of the epoch [%s]" % (db, k, cname)
+            beta = tr.stores("beta")
+            ds = [e for e in tr.stores("_drift_state") if e.value == const("drift")]
+            ap = [e for e in tr.mutations("epsilon") if e.how == "method:append"]
+            ie = q.find_calls(tr, HDMQ + "._estimate_initial_epsilon")
+            want_eps = 1 if k >= 2 else 0
+            want_init = 1 if (k == 2 and db != 3) else 0
+            want_test = 1 if ((k >= 2 and db != 3) or (k >= 3 and db == 3)) else 0
+            n += 1
+            ctx.ob("TAB-cadence", site, "epsilon recorded from the 2nd batch of an epoch on: " + lab, len(ap) == want_eps + want_init,
+                   "%d appends to the epoch's epsilon list, documented %d" % (len(ap), want_eps + want_init))
+            ctx.ob("TAB-cadence", site, "bootstrapped initial epsilon exactly for the 2nd batch when detect_batch < 3: " + lab, len(ie) == want_init,
+                   "%d estimates, documented %d" % (len(ie), want_init))
+            ctx.ob("TAB-cadence", site, "threshold test from the detect_batch-th test batch on: " + lab, len(beta) == want_test and len(ds) == want_test,
+                   "%d threshold / %d drift stores, documented %d" % (len(beta), len(ds), want_test))
+            if want_init and len(ap) == 2 and ie:
+                first = ap[0].value.single_atom()[1][0]
+                ctx.ob("ORD", site, "the bootstrapped estimate precedes the batch's own epsilon in the list: " + lab,
+                       ap[0].seq < ap[1].seq and T.mentions(first, lambda a: a[0] == "opaque" or a[0] == "call" or a[0] == "loopvar") and
+                       not T.mentions(first, lambda a: a == ("attr", "_prev_distance")), q.short(first, 80), ap[0])
+                a_ = ie[0].args
+                ctx.ob("FWD", site, "the estimate is made from the current reference with the configured number of subsets: " + lab,
+                       len(a_) >= 2 and _root_attr(a_[0]) == "reference" and a_[1] == A("subsets"), "", ie[0])
+            for e in ds:
+                g = [x for x in q.guards_in(e, site)]
+                ctx.ob("GRD", site, "nothing but the threshold test guards the drift store: " + lab, len(g) == 1, "guards: %s" % "; ".join(q.short(x, 60) for x in g), e)
+    ctx.floor("cadence cells [%s]" % cname, n, 15)
+
+
+def logs(ctx, cname):
+    site = HDMQ + ".update"
+    tr = upd(ctx, cname)
+    tot = A("_total_batches") + const(1)
+    cd = tr.stores("current_distance")
+    beta = tr.stores("beta")
+    for attr, src, what in (("distances", cd, "distance"), ("thresholds", beta, "threshold")):
+        mu = [e for e in tr.mutations(attr) if e.how == "setitem"]
+        ok = len(mu) == 1 and len(src) == 1 and mu[0].path == (("item", tot),) and mu[0].value == src[0].value and set(map(id, mu[0].pc)) == set(map(id, src[0].pc))
+        ctx.ob("IDX-log", site, "the %s of this batch is recorded under total_batches [%s]" % (what, cname), ok, "", mu[0] if mu else None)
+    mu = [e for e in tr.mutations("epsilon_values") if e.how == "setitem"]
+    ctx.ob("IDX-log", site, "the epsilon of this batch is recorded under total_batches [%s]" % cname, len(mu) == 1 and mu[0].path == (("item", tot),), "", mu[0] if mu else None)
+    # feature_info only for several features; per-feature epsilons available whenever a drift can be reported
+    fi = tr.stores("feature_info")
+    dim = A("_input_col_dim")
+    if fi:
+        for x in reversed(tr.events[: fi[0].seq]):
+            if x.kind == "load" and x.attr == "_input_col_dim":
+                dim = x.value
+                break
+    ctx.ob("GRD", site, "feature_info is reported exactly for more than one feature [%s]" % cname,
+           len(fi) == 1 and any(g == T.mk_cmp(">", dim, const(1)) for g in guards(fi[0])),
+           "guards: %s" % ("; ".join(q.short(g, 60) for g in q.guards_in(fi[0], site)) if fi else ""), fi[0] if fi else None)
+    fe = tr.stores("feature_epsilons")
+    okg = False
+    if len(fe) == 1:
+        gs = q.guards_in(fe[0], site)
+        since = A("_batches_since_reset") + const(1)
+        accept = [T.mk_cmp(">", tot, const(1)), T.mk_cmp(">=", tot, const(2)), T.mk_cmp(">=", since, const(2)), T.mk_cmp(">", since, const(1))]
+        okg = len(gs) == 1 and any(gs[0] == a_ for a_ in accept)
+    ctx.ob("GRD", site, "per-feature epsilons are computed whenever a previous batch exists (so always before a drift can be reported) [%s]" % cname, okg,
+           "guards: %s" % ("; ".join(q.short(g, 60) for g in guards(fe[0])) if fe else "no store"), fe[0] if fe else None)
+    if fi and fe:
+        v = fi[0].value
+        ctx.ob("FWD", site, "feature_info carries this update's per-feature epsilons and distances [%s]" % cname,
+               q.sub(v, const("Epsilons")) in (fe[0].value, A("feature_epsilons")) or T.mentions(q.sub(v, const("Epsilons")), lambda a: a == ("attr", "feature_epsilons")) or
+               q.sub(v, const("Epsilons")) == _final_of(tr, fi[0], "feature_epsilons"), q.short(q.sub(v, const("Epsilons")), 80), fi[0])
+    # the batch analysed is the validated batch with the detector's column names
+    xv = q.validated(tr, 0)
+    bh = [e for e in q.find_calls(tr, HDMQ + "._build_histograms") if e.func.qualname == site]
+    if xv is not None and len(bh) == 2:
+        want = atom(("call", "pandas.DataFrame", (xv,), (("columns", A("_input_cols")),)))
+        got = bh[1].args[0]
+        ctx.ob("FWD", site, "the batch histogram is built from the validated batch [%s]" % cname, got == want or T.mentions(got, lambda a: a == xv.single_atom()), q.short(got, 100), bh[1])
+    else:
+        ctx.anchor(site, "update validates its batch [%s]" % cname, False)
+
+
+def _final_of(tr, ev, attr):
+    for x in reversed(tr.events[: ev.seq]):
+        if x.kind == "store" and x.attr == attr:
+            return x.value
+    return None
+
+
+def reset_table(ctx, cname):
+    site = HDMQ + ".reset"
+    for db in (1, 2, 3):
+        tr = ctx.trace(cname, "reset", assume={"detect_batch": db})
+        rec = [e for e in tr.calls() if e.kind == "call" and e.callee[0] in ("self", "cut") and str(e.callee[1]).endswith(".update")] + \
+              [e for e in tr.of("cut") if str(e.callee).endswith(".update")]
+        st = tr.stores("reference")
+        ref = A("reference")
+        half = atom(("call", "int", (atom(("call", "len", (ref,), ())) / const(2),), ()))
+        if db == 1:
+            ctx.ob("TAB-reset", site, "detect_batch=1: the reference is split and its second half replayed as the first test batch [%s]" % cname, len(rec) >= 1 and len(st) >= 1, "")
+            if st:
+                v = st[0].value.single_atom()
+                lo = _row_slice(st[0].value)
+                ctx.ob("TAB-reset", site, "detect_batch=1: the first half stays the reference [%s]" % cname,
+                       lo is not None and lo[0] in (const(0), T.NONE) and lo[1] == half and _root_attr(_col_base(st[0].value)) == "reference", q.short(st[0].value, 100), st[0])
+            calls = [e for e in tr.calls() if e.callee[0] in ("self",) and str(e.callee[1]).endswith(".update")]
+            arg = calls[0].args[0] if calls and calls[0].args else None
+            if arg is None:
+                cuts = [e for e in tr.of("cut")]
+                arg = None
+            hi = _row_slice(arg) if arg is not None else None
+            if arg is not None:
+                ctx.ob("TAB-reset", site, "detect_batch=1: the replayed batch is exactly the other half [%s]" % cname,
+                       hi is not None and hi[0] == half and hi[1] == T.NONE and _root_attr(_col_base(arg)) == "reference", q.short(arg, 100), calls[0])
+        else:
+            ctx.ob("TAB-reset", site, "detect_batch=%d: the reference is kept whole and nothing is replayed [%s]" % (db, cname), not rec and not st, "")
+        fin = tr.final.attrs if tr.final is not None else {}
+        if db != 1:
+            ctx.ob("TAB-reset", site, "the epoch's epsilon statistics restart (detect_batch=%d) [%s]" % (db, cname),
+                   fin.get("epsilon") == atom(("list", ())) and fin.get("total_epsilon") == const(0), "")
+        else:
+            e1 = [e for e in tr.stores("epsilon") if e.func.name == "reset"]
+            e2 = [e for e in tr.stores("total_epsilon") if e.func.name == "reset"]
+            ctx.ob("TAB-reset", site, "the epoch's epsilon statistics restart before the replay (detect_batch=1) [%s]" % cname,
+                   len(e1) == 1 and e1[0].value == atom(("list", ())) and len(e2) == 1 and e2[0].value == const(0) and (not rec or e1[0].seq < rec[0].seq), "")
+
+
+def _row_slice(t):
+    """(start, stop) when t is <frame>.iloc[start:stop, ] / .iloc[start:stop]"""
+    a = t.single_atom() if t is not None else None
+    if a is None or a[0] != "sub":
+        return None
+    i = a[2].single_atom()
+    if i is not None and i[0] == "tuple" and len(i[1]) >= 1:
+        i = i[1][0].single_atom()
+    if i is not None and i[0] == "slice":
+        return (i[1], i[2])
+    return None
+
+
+def set_reference_table(ctx, cname):
+    site = HDMQ + ".set_reference"
+    tr = ctx.trace(cname, "set_reference", assume={"detect_batch": 3}, nonnull=("X",))
+    xv = q.validated(tr, 0)
+    st = [e for e in tr.stores("reference") if e.func.name == "set_reference"]
+    ok = False
+    if xv is not None and len(st) == 1:
+        want = atom(("call", "copy.deepcopy", (atom(("call", "pandas.DataFrame", (xv,), (("columns", A("_input_cols")),))),), ()))
+        ok = st[0].value == want or (T.mentions(st[0].value, lambda a: a == xv.single_atom()) and T.mentions(st[0].value, lambda a: a[0] == "call" and a[1] in ("copy.deepcopy", "copy.copy"))
+                                     and T.mentions(st[0].value, lambda a: a[0] == "call" and a[1] == "pandas.DataFrame" and "columns" in dict(a[3])))
+    ctx.ob("FWD", site, "the reference is a copy of the validated batch [%s]" % cname, ok, q.short(st[0].value, 120) if st else "no store")
+    rs = q.find_calls(tr, HDMQ + ".reset")
+    ctx.ob("ORD", site, "the statistics restart after the new reference is in place [%s]" % cname, len(rs) == 1 and bool(st) and st[0].seq < rs[0].seq, "")
+
+
+def threshold_cells(ctx, cname):
+    """_adaptive_threshold around the bootstrapped estimate: it is dropped on the 3rd batch of an epoch when detect_batch < 3."""
+    site = HDMQ + "._adaptive_threshold"
+    eps, te = A("epsilon"), A("total_epsilon")
+    tail = q.sub(eps, atom(("slice", const(1), T.NONE, T.NONE)))
+    for db, k, drop in ((2, 3, True), (1, 3, True), (2, 4, False), (3, 3, False), (2, 2, False)):
+        tr = Evaluator(ctx.prog, ctx.prog.cls(cname), assume={"detect_batch": db, "_batches_since_reset": k}).run(
+            ctx.prog.method(cname, "_adaptive_threshold"), args=[const("stdev"), P("test_n")])
+        fin = tr.final.attrs if tr.final is not None else {}
+        if drop:
+            ok = fin.get("epsilon") == tail and fin.get("total_epsilon") is not None and T.same(fin["total_epsilon"], te - q.sub(eps, 0) + q.sub(tail, -2))
+        else:
+            ok = fin.get("epsilon", eps) == eps and fin.get("total_epsilon") is not None and T.same(fin["total_epsilon"], te + q.sub(eps, -2))
+        rv = tr.retval
+        uses_lambda = rv is not None and T.mentions(rv, lambda a: a == ("attr", "_lambda"))
+        ctx.ob("TAB-threshold", site, "the mean is taken over %s (detect_batch=%d, batch %d of the epoch) [%s]" % ("one epsilon" if k == 2 else "total_batches - lambda - 1 epsilons", db, k, cname),
+               uses_lambda == (k != 2), q.short(rv, 120) if rv is not None else "")
+        ctx.ob("TAB-threshold", site, "bootstrapped estimate %s (detect_batch=%d, batch %d of the epoch) [%s]" % ("dropped from list and running sum" if drop else "kept", db, k, cname), ok,
+               "epsilon' = %s ; total_epsilon' = %s" % (q.short(fin.get("epsilon", eps), 60), q.short(fin.get("total_epsilon", te), 100)))
+
+
+def lifecycle(ctx):
+    from . import common, c14
+    common.lifecycle(ctx, ["HDDDM", "CDBD"], clean_slate=False)
+    for cname in ("HDDDM", "CDBD"):
+        ti = ctx.trace(cname, "__init__")
+        at = ti.final.attrs if ti.final is not None else {}
+        for attr in ("distances", "epsilon_values", "thresholds"):
+            ctx.ob("FRM-init", cname + ".__init__", "the log %s starts empty" % attr, at.get(attr) in (atom(("dict", ())), atom(("call", "dict", (), ()))), "")
+    c14.univariate(ctx, "CDBD")
